@@ -2,6 +2,7 @@ package main
 
 import (
 	"fmt"
+	"strings"
 	"go/token"
 	"go/types"
 	"math/big"
@@ -11,6 +12,10 @@ import (
 
 func (t *Tr) ensureComp(name string) {
 	if _, ok := t.c.compSort[name]; ok {
+		return
+	}
+	if strings.HasPrefix(name, "ghost:") {
+		t.baseEnv(t.entrySt).ghostVar(name[6:])
 		return
 	}
 	if s, ok := t.ms.compSorts[name]; ok {
